@@ -175,9 +175,14 @@ class Machine:
 
     @staticmethod
     def write(path, text):
+        """Atomic (temp file + rename), as editors and package managers write: a process that is reading
+        the file at that moment keeps reading the old content, nobody ever sees a torn file.  (A model file
+        torn by an in-place rewrite is garbage input, not a cache matter.)"""
         os.makedirs(os.path.dirname(path), exist_ok=True)
-        with fsmod.real("open")(path, "w") as f:
+        tmp = path + ".harness-edit"
+        with fsmod.real("open")(tmp, "w") as f:
             f.write(text)
+        fsmod.real("replace")(tmp, path)
 
     @staticmethod
     def read(path):
